@@ -15,6 +15,7 @@ Pairs(S, N) == {<<s, n>> : s \in S, n \in N}
 CasesQ == Pairs(Linear \cup Lists, Small \cup Mid1) \cup {<<"edge-consts", 1>>}
           \cup Pairs({"long-string", "long-bracket", "instructions", "jump-forward", "jump-back", "lines", "int-consts"}, {32768, 65536})
           \cup Pairs({"siblings", "nested", "str-consts"}, {10000})
+          \cup Pairs({"nested", "upthread", "deep-consts"}, {400, 498})   \* just below golua's limit on syntax nesting (2 levels per function)
 CasesT == CasesQ \cup Pairs(Linear, Around(127) \cup Around(200) \cup Around(255) \cup Around(512) \cup {5000, 10000} \cup Big \cup Huge)
           \cup Pairs(Lists, Around(200) \cup Around(255) \cup {5000, 10000})
 =============================================================================
